@@ -9,6 +9,7 @@
   had released g chunks is (s - 1 + g) mod 2^16.
 -/
 import SA.Model.Queue
+import SA.Proofs.QueueWindow
 namespace SA.Queue
 
 def seqOf (s j : Nat) : Nat := (s + j) % MOD
@@ -414,6 +415,8 @@ theorem LinkInv.append (h : LinkInv c s A Bd o i) (hc : Consts c A Bd) {j : Nat}
         have hne' : j ≠ i.cnt := by
           intro he; apply hne; rw [h.hinext, he]
         have hm1 := hc.max1
+        have hsq : (⟨seqOf s j, d⟩ : Pkt).seq < MOD := Nat.mod_lt _ (by omega)
+        rw [inWindowL_eq c hsq] at hwin
         simp only [inWindow, hc.wlo, hc.whi, h.hinext, decide_eq_true_eq] at hwin
         unfold seqOf at hwin
         omega
